@@ -474,6 +474,40 @@ func (p c08) readPhase(ctx *core.RunCtx, g *c08Gen, e *c08Entry, v ser, data []b
 // caller-owned bufio.Reader.
 func (p c08) streamPhase(ctx *core.RunCtx, g *c08Gen, es []*c08Entry, vs []ser, ds [][]byte) {
 	ch := ctx.Ch
+	// one buffer.Buffer (the library's slice-backed transport) reused for every object: Reset, write, read back
+	{
+		size := 0
+		for _, d := range ds {
+			if len(d) > size {
+				size = len(d)
+			}
+		}
+		bb := buffer.NewBufferSize(size + 8*ch.Draw("reused-buffer-slack", 3))
+		for i, v := range vs {
+			bb.Reset()
+			cls := es[i].Name + "|reused buffer.Buffer"
+			res := guarded(false, func() (int64, error) { return v.(io.WriterTo).WriteTo(bb) })
+			if res.panicked || res.err != nil || res.n != int64(len(ds[i])) {
+				ctx.Fail("stream", cls+"|write", "object %d written into a buffer.Buffer after Reset: n=%d want %d err=%v panic=%v %s", i, res.n, len(ds[i]), res.err, res.panicked, res.msg)
+				return
+			}
+			if !bytes.Equal(bb.Bytes()[:len(ds[i])], ds[i]) {
+				ctx.Fail("stream", cls+"|bytes", "object %d written into a buffer.Buffer after Reset: %s", i, firstDiff(bb.Bytes()[:len(ds[i])], ds[i]))
+				return
+			}
+			recv := es[i].New()
+			res = guarded(false, func() (int64, error) { return recv.(io.ReaderFrom).ReadFrom(bb) })
+			ctx.Count("oracle.stream-read", 1)
+			if res.panicked || res.hang || res.err != nil || res.n != int64(len(ds[i])) {
+				ctx.Fail("stream", cls+"|read", "object %d (%s) read back from a buffer.Buffer that was Reset and rewritten: n=%d want %d err=%v panic=%v %s", i, es[i].Name, res.n, len(ds[i]), res.err, res.panicked, res.msg)
+				return
+			}
+			if !p.checkDecoded(ctx, es[i], cls, recv, vs[i], ds[i]) {
+				return
+			}
+		}
+		ctx.Count("fault.transport-buffer-reused", 1)
+	}
 	sink := simio.NewSink(-1)
 	bw := bufio.NewWriterSize(sink, drawBufSize(ch))
 	total := 0
